@@ -131,10 +131,10 @@ Proof.
   repeat (apply andb_true_iff in W; destruct W as [W ?]).
   repeat (apply andb_true_iff in C; destruct C as [C ?]).
   apply bytes_eqb_spec in C. split; [exact C|].
-  unfold usk_wf, fixed_point. cbn [orc_of dec_o_sk dec_s_sk dec_t_sk t_pk_ivk t_sk_pk].
+  unfold usk_wf, fixed_point. cbn [orc_of dec_o_sk dec_s_sk dec_t_sk t_sk_ivk].
   repeat split; try (apply okb_len; assumption); try (apply ores_isb_spec; assumption).
   - lia.
-  - destruct (look_opt t 6 (look_bytes t 3 (usk_t k) 0) 0); [discriminate | discriminate H2].
+  - destruct (look_opt t 23 (usk_t k) 0); [discriminate | discriminate H2].
 Qed.
 
 Lemma b_usk_decode t orig b o :
